@@ -11,7 +11,7 @@ EXPLANATION = (
     'digest of the same loop entry; HubClient::put announces the file\'s metadata length and streams that file; (R3) a non-committed Put latches a variable (counter, bool or Option) that is never reset and guards the Ok return, the loop always goes on to the next local entry after a Put reply (a lost CAS does not stop the push), '
     'and every I/O error propagates; (R4) the client module neither deletes, mutates files, nor sends Delete; List hides only the .copia control '
     'directory; the hiding predicate must be the component-wise Path::starts_with (a string prefix would also hide .copiarc), in filter or loop form; (R5) target dispatch: host:root -> ssh -T host copia serve root, otherwise <current_exe> serve <target>; prologue and Hello precede every other request. '
-    'The hub half is C03/C10. Not decided: hub end state; second-run silence (follows from R1 and C10).')
+    '(R6) the hub half of the last clause: in the handlers of the hub the CAS read, cas_decide and the rename / remove are inside one held region and on the matching edge, and success replies follow the operation (the C03.R3 / R5 rules run under this property); staging and content integrity are C10. Not decided: hub end state; second-run silence (follows from R1 and C10).')
 ASSUMPTIONS = ['the hub behaves as decided by C03/C10/C11/C12']
 
 
@@ -22,6 +22,13 @@ def run(ctx):
     ctx.rule('C13.R3', 'lost CAS -> non-zero exit, and the push continues with the remaining files; I/O errors propagate', floor=4)
     ctx.rule('C13.R4', 'client never deletes / writes; List hides only .copia', floor=2)
     ctx.rule('C13.R5', 'target dispatch and handshake order', floor=4)
+    # the hub half of "nothing another client committed has been overwritten": compare and swap are one step under the commit
+    # lock, the mutation sits on the matching edge, replies report what happened (the C03.R3 / R5 rules, run under C13.R6)
+    ctx.rule('C13.R6', 'hub side: the CAS read, the decision and the rename / remove are inside one held region, on the matching edge (= C03.R3, R5)', floor=5)
+    from rules import C03
+    from rules.hub import Hub
+    hubx = Hub(ctx, F, 'C13.R6')
+    ctx.attempt(C03.r3_r5, RidProxy(ctx, {'C03.R2': 'C13.R6', 'C03.R3': 'C13.R6', 'C03.R5': 'C13.R6'}), F, hubx)
     b = F.body('hub::hub_sync')
     if b is None:
         ctx.missing('C13.R1', 'hub::hub_sync')
